@@ -26,6 +26,9 @@
 (*   "BomPerWrite"    each write is encoded on its own by a stateless      *)
 (*                    encoder, so a codec with a signature (utf-16) puts a *)
 (*                    byte-order mark in front of every write              *)
+(*   "ModeEndsWithB"  _is_binary_stream tests mode.endswith("b"): a binary  *)
+(*                    file opened for update reports "rb+" / "ab+" and is  *)
+(*                    taken for a text sink (a seeded change)              *)
 (*   "EmptyCodecDeclared"  with codec "" (the other spelling of "no codec"  *)
 (*                    on a text sink) the XML declaration carries          *)
 (*                    encoding="" (a seeded change)                        *)
@@ -46,11 +49,13 @@ CONSTANTS MaxNodes,     \* trees of 1..MaxNodes nodes
           Strings,      \* hostile strings (sequences of DocClasses) put into every document-controlled slot
           Kinds,        \* node kinds the build phase may use
           DevChoices,   \* deviation sets to explore (the intended design is {})
+          SinkKinds,    \* kinds of sink handed to the converter (ConvOps: SinkKindsAll); all sinks are modelled at once, the kind
+                        \* only matters for how the converter classifies it
           ShiftSinks    \* TRUE: the utf-7 / hz / iso2022_jp sinks are carried as well, and every text-sink codec is tried
 
-VARIABLES T, hs, phase, conv, strip, imgw, tc, dev, i, stack, sub, chars, u8, u16, l1, xs, nw, px
-vars == <<T, hs, phase, conv, strip, imgw, tc, dev, i, stack, sub, chars, u8, u16, l1, xs, nw, px>>
-cfgv == <<hs, conv, strip, imgw, tc, dev>>
+VARIABLES T, hs, phase, conv, strip, imgw, tc, sk, dev, i, stack, sub, chars, u8, u16, l1, xs, nw, px
+vars == <<T, hs, phase, conv, strip, imgw, tc, sk, dev, i, stack, sub, chars, u8, u16, l1, xs, nw, px>>
+cfgv == <<hs, conv, strip, imgw, tc, sk, dev>>
 
 XS0 == [u7 |-> <<>>, hz |-> <<>>, jp |-> <<>>, s7 |-> FALSE, shz |-> FALSE, sjp |-> FALSE]
 Node(k, d, s, f, a) == [k |-> k, d |-> d, s |-> s, f |-> f, a |-> a]
@@ -58,7 +63,7 @@ Blank == <<>>
 
 Init == /\ hs \in Strings
         /\ T = <<Node("page", 0, Blank, Blank, 0)>>
-        /\ phase = "build" /\ conv = "none" /\ strip = FALSE /\ imgw = FALSE /\ tc = 0 /\ dev = {}
+        /\ phase = "build" /\ conv = "none" /\ strip = FALSE /\ imgw = FALSE /\ tc = 0 /\ sk = "StringIO" /\ dev = {}
         /\ i = 0 /\ stack = <<>> /\ sub = 0 /\ chars = <<>> /\ u8 = <<>> /\ u16 = <<>> /\ l1 = <<>> /\ xs = XS0 /\ nw = 0 /\ px = P0
 
 \* ------------------------------------------------------------------ build phase: grow the tree in preorder
@@ -88,12 +93,14 @@ AGrow == /\ phase = "build"
               /\ MayAdd(k, d)
               /\ \/ k # "anno" /\ T' = Append(T, NewNode(k, d))
                  \/ k = "anno" /\ \E w \in {cSP, cLF} : T' = Append(T, Node(k, d, <<w>>, Blank, 0))
-         /\ UNCHANGED <<hs, phase, conv, strip, imgw, tc, dev, i, stack, sub, chars, u8, u16, l1, xs, nw, px>>
+         /\ UNCHANGED <<hs, phase, conv, strip, imgw, tc, sk, dev, i, stack, sub, chars, u8, u16, l1, xs, nw, px>>
 
 HasImage == \E j \in 1..Len(T) : T[j].k = "image"
 AStart == /\ phase = "build" /\ CanClose
-          /\ phase' = "run" /\ i' = 1
+          /\ i' = 1 /\ sk' \in SinkKinds
           /\ conv' \in {"text", "xml"} /\ dev' \in DevChoices
+          \* a sink taken for the wrong kind: str written to a binary file (TypeError) / "codec required" (PDFValueError)
+          /\ phase' = IF SeenBinary(sk', dev') # TakesBytes(sk') THEN "sinkerror" ELSE "run"
           /\ strip' \in (IF conv' = "xml" THEN BOOLEAN ELSE {FALSE})
           /\ imgw' \in (IF conv' = "xml" /\ HasImage THEN BOOLEAN ELSE {FALSE})
           \* TextConverter takes any `codec` together with a text sink (XMLConverter insists on none)
@@ -131,10 +138,10 @@ Descend == IF i > N THEN FALSE ELSE IF stack = <<>> THEN TRUE ELSE T[i].d > T[To
 \* write_header: the declaration names the codec on a binary sink and has no encoding pseudo-attribute on a text sink
 ABegin == /\ phase = "run" /\ sub = 3
           /\ sub' = 1 /\ Write2(IF tc = tEMPTY /\ "EmptyCodecDeclared" \in dev THEN XmlHeaderEmptyEncoding ELSE XmlHeader(FALSE), XmlHeader(TRUE))
-          /\ UNCHANGED <<T, hs, phase, conv, strip, imgw, tc, dev, i, stack, px>>
+          /\ UNCHANGED <<T, hs, phase, conv, strip, imgw, tc, sk, dev, i, stack, px>>
 ABegin2 == /\ phase = "run" /\ sub = 1
            /\ sub' = 0 /\ Write(XmlRootOpen)
-           /\ UNCHANGED <<T, hs, phase, conv, strip, imgw, tc, dev, i, stack, px>>
+           /\ UNCHANGED <<T, hs, phase, conv, strip, imgw, tc, sk, dev, i, stack, px>>
 
 AEnter == /\ phase = "run" /\ sub = 0 /\ Descend
           /\ LET k == T[i].k IN
@@ -150,11 +157,11 @@ AEnter == /\ phase = "run" /\ sub = 0 /\ Descend
                   /\ IF k = "char" THEN stack' = Append(stack, i) /\ sub' = 2
                      ELSE IF k \in Containers THEN stack' = Append(stack, i) /\ UNCHANGED sub
                      ELSE UNCHANGED <<stack, sub>>
-          /\ UNCHANGED <<T, hs, phase, conv, strip, imgw, tc, dev, px>>
+          /\ UNCHANGED <<T, hs, phase, conv, strip, imgw, tc, sk, dev, px>>
 
 ACharText == /\ phase = "run" /\ conv = "xml" /\ sub = 2
              /\ Write(XmlCharText(T[Top].s, strip)) /\ sub' = 0
-             /\ UNCHANGED <<T, hs, phase, conv, strip, imgw, tc, dev, i, stack, px>>
+             /\ UNCHANGED <<T, hs, phase, conv, strip, imgw, tc, sk, dev, i, stack, px>>
 
 AExit == /\ phase = "run" /\ sub = 0 /\ stack # <<>> /\ ~Descend
          /\ stack' = SubSeq(stack, 1, Len(stack) - 1)
@@ -164,12 +171,12 @@ AExit == /\ phase = "run" /\ sub = 0 /\ stack # <<>> /\ ~Descend
                  ELSE IF k = "page" THEN Write(<<cFF>>)
                  ELSE NoWrite
             ELSE Write(XmlClose(k))
-         /\ UNCHANGED <<T, hs, phase, conv, strip, imgw, tc, dev, i, sub, px>>
+         /\ UNCHANGED <<T, hs, phase, conv, strip, imgw, tc, sk, dev, i, sub, px>>
 
 AClose == /\ phase = "run" /\ sub = 0 /\ stack = <<>> /\ i > N
           /\ phase' = "done"
           /\ IF conv = "xml" THEN Write(XmlFooter) /\ px' = ParseXML(chars \o XmlFooter) ELSE NoWrite /\ UNCHANGED px
-          /\ UNCHANGED <<T, hs, conv, strip, imgw, tc, dev, i, stack, sub>>
+          /\ UNCHANGED <<T, hs, conv, strip, imgw, tc, sk, dev, i, stack, sub>>
 
 Next == AGrow \/ AStart \/ ABegin \/ ABegin2 \/ AEnter \/ ACharText \/ AExit \/ AClose
 Spec == Init /\ [][Next]_vars
@@ -195,6 +202,8 @@ P_SinkIndependent == Done => /\ SinkOK(u8, kUTF8) /\ SinkOK(u16, kUTF16) /\ Sink
 P_XMLWellFormed == (Done /\ conv = "xml") => WellFormed(px) /\ WellFormed(ParseXML(Decode(u16, kUTF16)))
 P_XMLParsesBackToTree == (Done /\ conv = "xml") => px.ev = TreeEvents(T, strip, imgw)
 
+P_SinkKindRecognised == phase # "sinkerror"
+SinkKindRecognised == Intended => P_SinkKindRecognised
 TextIsTreeText == Intended => P_TextIsTreeText
 XMLWellFormed == Intended => P_XMLWellFormed
 XMLParsesBackToTree == Intended => P_XMLParsesBackToTree
@@ -207,7 +216,7 @@ StackIsPath == phase = "run" =>
 
 \* terminal states for the replay
 EmitTerminal ==
-  Done => PrintT("@@" \o ToJson([T |-> T, conv |-> conv, strip |-> strip, imgw |-> imgw, tc |-> tc, dev |-> dev,
+  Done => PrintT("@@" \o ToJson([T |-> T, conv |-> conv, strip |-> strip, imgw |-> imgw, tc |-> tc, sk |-> sk, dev |-> dev,
                                    chars |-> chars, u8 |-> u8, u16 |-> u16, l1 |-> l1, u7 |-> xs.u7, hz |-> xs.hz, jp |-> xs.jp, nw |-> nw,
                                    ev |-> IF conv = "xml" /\ dev = {} THEN px.ev ELSE <<>>]))
 =============================================================================
